@@ -191,7 +191,7 @@ def step (d : DSt) (line : String) : DSt × String :=
     match parseOp d.st ws with
     | none => (d, "bad-op")
     | some op =>
-      let st0 := { d.st with staleHit := false, watchHit := false }
+      let st0 := { d.st with staleHit := false, watchHit := false, immHit := false }
       match stepOp st0 op with
       | none => (d, "noop")
       | some st =>
@@ -206,6 +206,7 @@ def step (d : DSt) (line : String) : DSt × String :=
           let cur := statuses st
           let changes := cur.filter fun (n, s) => (d.prev.lookup n) != some s
           let verdict := if st.staleHit then "fail ctx-survives-cleanup"
+            else if st.immHit then "fail imm-reruns-after-dispose"
             else if st.watchHit then "fail watch-handler-unowned" else "ok"
           let e := if evs.isEmpty then "-" else ",".intercalate evs
           let c := if changes.isEmpty then "-" else ",".intercalate (changes.map fun (n, s) => s!"{n}={s}")
